@@ -2,7 +2,7 @@ import HL.Lemmas.LexLocal
 /-!
   Stream-level consequences of `next_step`, stated with the executable oracle of
   HL/Spec/LexSpec.lean: the Newline tokens are exactly the LF bytes; what no token covers is
-  blanks (once an empty `( ) [ ] |` token is taken to cover the character in front of it);
+  blanks;
   token line numbers count the line feeds before the token.
 -/
 namespace HL.Lex
@@ -60,8 +60,6 @@ theorem lexS_newlines (C : Classes) (n : Nat) (z : Z) (hn : z.after.length ≤ n
         simp only [List.append_nil] at this
         rw [hafter, this]
         simp [newlineOffsets, he, lfOffsetsFrom]
-      | punct sp c hsp hc hafter hbefore hline hty hval hpos hstop =>
-        simp [isPunct, he] at hty
       | newline sp hsp hafter hbefore hline hcol hstart hty hpl hpo hstop =>
         rw [hty] at he; exact absurd he (by decide)
     · rename_i hne
@@ -78,27 +76,9 @@ theorem lexS_newlines (C : Classes) (n : Nat) (z : Z) (hn : z.after.length ≤ n
         have hty' : ((next C z).1.ty == TokType.newline) = false := by simpa using hty
         rw [hafter, lfOffsetsFrom_append_noLF _ _ _ hno, hbefore, hty']
         simp; congr 1; omega
-      | punct sp c hsp hc hafter hbefore hline hty hval hpos hstop =>
-        have hno : LF ∉ sp ++ [c] := by
-          intro hm
-          rcases List.mem_append.mp hm with hm | hm
-          · exact spaces_noLF hsp hm
-          · simp at hm; exact hc hm.symm
-        have hty' : ((next C z).1.ty == TokType.newline) = false := by
-          cases hq : ((next C z).1.ty == TokType.newline)
-          · rfl
-          · simp only [beq_iff_eq] at hq; simp [isPunct, hq] at hty
-        have ha : z.after = (sp ++ [c]) ++ (next C z).2.after := by simp [hafter]
-        rw [ha, lfOffsetsFrom_append_noLF _ _ _ hno, hbefore, hty']
-        simp; congr 1; omega
       | newline sp hsp hafter hbefore hline hcol hstart hty hpl hpo hstop =>
         rw [hafter, lfOffsetsFrom_append_noLF _ _ _ (spaces_noLF hsp), hbefore, hty, hpo]
         simp [lfOffsetsFrom]; congr 1; omega
-
-theorem startOf_le (len : Bool) (input : Bytes) (prev : Nat) (t : Token) :
-    startOf len input prev t ≤ t.pos.off := by
-  unfold startOf
-  split <;> omega
 
 theorem input_drop_before (z : Z) : z.input.drop z.before.length = z.after := by
   have : z.before.length = z.before.reverse.length := by simp
@@ -110,13 +90,11 @@ theorem mem_take_prefix {sp rest : Bytes} {k : Nat} (hk : k ≤ sp.length) (h : 
   rw [List.take_append_of_le_length hk] at hc
   exact h c (List.mem_of_mem_take hc)
 
-/-- the bytes between the lexer position and the (leniently taken) start of the next token
-    are blanks -/
+/-- the bytes between the lexer position and the start of the next token are exactly the
+    blanks `skipSpaces` stepped over -/
 theorem first_gap {z : Z} {r : Token × Z} (h : Step z r) :
-    ∀ c ∈ (z.input.drop z.before.length).take (startOf true z.input z.before.length r.1 - z.before.length),
-      c = 0x20 := by
+    ∀ c ∈ (z.input.drop z.before.length).take (r.1.pos.off - z.before.length), c = 0x20 := by
   rw [input_drop_before]
-  have hle := startOf_le true z.input z.before.length r.1
   cases h with
   | tok sp pre hsp hpre hafter hbefore hline hty hpl hpo =>
     rw [hafter, List.append_assoc]
@@ -124,33 +102,14 @@ theorem first_gap {z : Z} {r : Token × Z} (h : Step z r) :
   | newline sp hsp hafter hbefore hline hcol hstart hty hpl hpo hstop =>
     rw [hafter]
     exact mem_take_prefix (by omega) hsp
-  | punct sp c hsp hc hafter hbefore hline hty hval hpos hstop =>
-    have hpo : r.1.pos.off = z.before.length + sp.length + 1 := by
-      rw [hpos]; simp [Z.position, hbefore]; omega
-    have hso : r.1.stop.off = r.1.pos.off := by rw [hstop, hpos]
-    have hget : z.input.getD (r.1.pos.off - 1) 0 = c := by
-      have hidx : r.1.pos.off - 1 = z.before.reverse.length + sp.length := by simp; omega
-      rw [hidx, Z.input, hafter, List.getD_eq_getElem?_getD, ← List.append_assoc,
-        List.getElem?_append_right (by simp)]
-      simp
-    have hstart : startOf true z.input z.before.length r.1 = r.1.pos.off - 1 := by
-      unfold startOf
-      have hcond : (true && isPunct r.1 && r.1.pos.off == r.1.stop.off && decide (z.before.length < r.1.pos.off) &&
-          r.1.val == [z.input.getD (r.1.pos.off - 1) 0]) = true := by
-        rw [hget, hval, hty, hso]
-        simp
-        omega
-      rw [if_pos hcond]
-    rw [hstart, hafter]
-    exact mem_take_prefix (by omega) hsp
 
-theorem gaps_cons (len : Bool) (input : Bytes) (prev : Nat) (t : Token) (rest : List Token) :
-    gaps len input prev (t :: rest) =
-      (input.drop prev).take (startOf len input prev t - prev) ++ gaps len input t.stop.off rest := rfl
+theorem gaps_cons (input : Bytes) (prev : Nat) (t : Token) (rest : List Token) :
+    gaps input prev (t :: rest) =
+      (input.drop prev).take (t.pos.off - prev) ++ gaps input t.stop.off rest := rfl
 
-/-- Cover, in the lenient reading: everything that lies between the tokens is blanks. -/
+/-- Cover: everything that lies between the token extents is blanks. -/
 theorem lexS_covered (C : Classes) (n : Nat) (z : Z) (hn : z.after.length ≤ n) :
-    ∀ c ∈ gaps true z.input z.before.length (lexS C z), c = 0x20 := by
+    ∀ c ∈ gaps z.input z.before.length (lexS C z), c = 0x20 := by
   induction n generalizing z with
   | zero =>
     have h0 : z.after = [] := List.eq_nil_of_length_eq_zero (by omega)
@@ -187,6 +146,37 @@ theorem lexS_covered (C : Classes) (n : Nat) (z : Z) (hn : z.after.length ≤ n)
       · rw [hres.stop_eq, ← hres.adv.input] at hc
         exact hih c hc
 
+/-- Pure list fact: for an ordered stream the gaps and the token extents, concatenated in
+    order, are the input — every byte lies in exactly one gap or one token extent. -/
+theorem ordered_pieces (input : Bytes) (prev : Nat) (toks : List Token)
+    (h : ordered input.length prev toks = true) : pieces input prev toks = input.drop prev := by
+  induction toks generalizing prev with
+  | nil => rfl
+  | cons t rest ih =>
+    have split2 : ∀ (a b : Nat), a ≤ b → input.drop a = (input.drop a).take (b - a) ++ input.drop b := by
+      intro a b hab
+      have h1 := (List.take_append_drop (b - a) (input.drop a)).symm
+      rw [List.drop_drop] at h1
+      have : a + (b - a) = b := by omega
+      rw [this] at h1
+      exact h1
+    cases rest with
+    | nil =>
+      simp only [ordered, Bool.and_eq_true, decide_eq_true_eq, beq_iff_eq] at h
+      obtain ⟨⟨⟨_, h2⟩, h3⟩, h4⟩ := h
+      simp only [pieces]
+      rw [h4, h3]
+      simp only [Nat.sub_self, List.take_zero, List.append_nil, List.drop_length]
+      have := split2 prev input.length (by omega)
+      rw [List.drop_length, List.append_nil] at this
+      exact this.symm
+    | cons t2 rest =>
+      rw [ordered_cons_cons] at h
+      simp only [Bool.and_eq_true, decide_eq_true_eq, bne_iff_ne, ne_eq] at h
+      obtain ⟨⟨⟨⟨_, h2⟩, h3⟩, _⟩, h5⟩ := h
+      rw [pieces, ih _ h5]
+      rw [List.append_assoc, ← split2 t.pos.off t.stop.off (by omega), ← split2 prev t.pos.off h2]
+
 /-! ### line numbers -/
 
 theorem countLF_reverse (s : Bytes) : countLF s.reverse = countLF s := by
@@ -206,16 +196,6 @@ theorem step_lines {z : Z} {r : Token × Z} (L : Nat) (h : Step z r) (hinv : z.l
     have ha : z.after = sp ++ (pre ++ r.2.after) := by rw [hafter, List.append_assoc]
     rw [hpo, take_input ha, hpl, hline, hbefore, hinv]
     simp only [countLF_append, countLF_reverse, countLF_of_not_mem hpre, countLF_of_not_mem (spaces_noLF hsp)]
-    omega
-  | punct sp c hsp hc hafter hbefore hline hty hval hpos hstop =>
-    have hcc : LF ∉ [c] := by simp; exact fun e => hc e.symm
-    have ha : z.after = (sp ++ [c]) ++ r.2.after := by simp [hafter]
-    have hpo : r.1.pos.off = z.before.length + (sp ++ [c]).length := by
-      rw [hpos]; simp [Z.position, hbefore]; omega
-    have hpl : r.1.pos.line = z.line := by rw [hpos]; simp [Z.position, hline]
-    have hb : r.2.before = [c].reverse ++ sp.reverse ++ z.before := by simp [hbefore]
-    rw [hpo, take_input ha, hpl, hline, hb, hinv]
-    simp only [countLF_append, countLF_reverse, countLF_of_not_mem hcc, countLF_of_not_mem (spaces_noLF hsp)]
     omega
   | newline sp hsp hafter hbefore hline hcol hstart hty hpl hpo hstop =>
     have hb : r.2.before = [LF] ++ sp.reverse ++ z.before := by simp [hbefore]
@@ -287,19 +267,9 @@ theorem next_newline_shape (C : Classes) (z : Z) :
   intro hty
   cases next_step C z with
   | tok sp pre hsp hpre hafter hbefore hline hty' hpl hpo => exact absurd hty hty'
-  | punct sp c hsp hc hafter hbefore hline hty' hval hpos hstop => simp [isPunct, hty] at hty'
   | newline sp hsp hafter hbefore hline hcol hstart hty' hpl hpo hstop =>
     rw [hstop, hpo, hpl]
     simp [Z.position, hbefore, hline, hcol]
     omega
-
-theorem gaps_lenient_eq (input : Bytes) (p : Nat) (toks : List Token) (h : ∀ t ∈ toks, isPunct t = false) :
-    gaps true input p toks = gaps false input p toks := by
-  induction toks generalizing p with
-  | nil => rfl
-  | cons t rest ih =>
-    have h1 : startOf true input p t = startOf false input p t := by
-      simp [startOf, h t (by simp)]
-    rw [gaps_cons, gaps_cons, h1, ih _ (fun x hx => h x (List.mem_cons_of_mem _ hx))]
 
 end HL.Lex
